@@ -49,6 +49,7 @@ type c16 struct {
 	layered   bool
 	pre       [][2]string // initial content
 	dropNode  string      // path whose leaf node is deleted from the store before the threads start ("" = none)
+	warm      bool        // the trie reads through a transaction cache whose block/state cache holds the nodes (committed by the previous block)
 	scripts   [][]mop
 }
 
@@ -61,6 +62,21 @@ type mworld struct {
 
 func (c c16) build() *mworld {
 	w := &mworld{save: util.NewMemoryNodeDB()}
+	if c.warm {
+		// block b1 builds the content and commits its node cache; the trie under test belongs to block b2 on b1
+		sc := statecache.NewStateCache()
+		bc1, tc1 := statecache.NewBlockTxnCaches(sc, statecache.Block{Hash: "b1"})
+		w.db = util.NewMemoryNodeDB()
+		t0 := util.NewMerklePatriciaTrie(w.db, 1, nil, tc1)
+		for _, kv := range c.pre {
+			_, _ = t0.Insert(util.Path(kv[0]), &util.SecureSerializableValue{Buffer: []byte(kv[1])})
+		}
+		tc1.Commit()
+		bc1.Commit()
+		_, tc2 := statecache.NewBlockTxnCaches(sc, statecache.Block{Hash: "b2", PrevHash: "b1"})
+		w.t = util.NewMerklePatriciaTrie(w.db, 1, t0.GetRoot(), tc2)
+		return w
+	}
 	if c.layered {
 		base := util.NewMemoryNodeDB()
 		t0 := util.NewMerklePatriciaTrie(util.NewLevelNodeDB(util.NewMemoryNodeDB(), base, false), 1, nil, statecache.NewEmpty())
@@ -311,6 +327,14 @@ func C16Scenarios() []sched.Scenario {
 			c.name = tag + "/" + c.name
 			out = append(out, c.scenario())
 		}
+	}
+	// the same trie behind a node cache that hits (nodes committed by the previous block)
+	for _, c := range []c16{
+		{name: "warm-cache/R||R", doc: "two readers of a trie whose nodes are served by the block/state cache", scripts: [][]mop{{{'G', "0a1b", ""}, {'G', "1c00", ""}}, {{'G', "0a1c", ""}, {'T', "", ""}}}},
+		{name: "warm-cache/W||R", doc: "writer || reader, nodes served by the block/state cache", scripts: [][]mop{{{'I', "0a1d", "x"}, {'D', "0b22", ""}}, {{'G', "0b22", ""}, {'G', "0a1d", ""}}}},
+	} {
+		c.warm, c.pre = true, mptPre
+		out = append(out, c.scenario())
 	}
 	return out
 }
